@@ -64,7 +64,12 @@ func (gj *groupJob[T]) Close() error {
 	}
 
 	gj.ack()
-	gj.changeStatus(closed)
+
+	// only the caller that wins the transition counts the item as done
+	if err := gj.closeStatus(); err != nil {
+		return err
+	}
+
 	gj.wgc.Done()
 
 	return nil
@@ -135,7 +140,12 @@ func (gj *resultGroupJob[T, R]) Close() error {
 	}
 
 	gj.ack()
-	gj.changeStatus(closed)
+
+	// only the caller that wins the transition counts the item as done
+	if err := gj.closeStatus(); err != nil {
+		return err
+	}
+
 	// only the finisher that takes the counter to zero closes the stream
 	if gj.wgc.Done() {
 		gj.Response.Close()
@@ -212,7 +222,12 @@ func (gj *errorGroupJob[T]) Close() error {
 	}
 
 	gj.ack()
-	gj.changeStatus(closed)
+
+	// only the caller that wins the transition counts the item as done
+	if err := gj.closeStatus(); err != nil {
+		return err
+	}
+
 	// only the finisher that takes the counter to zero closes the stream
 	if gj.wgc.Done() {
 		gj.Response.Close()
